@@ -168,7 +168,10 @@ func c04Config(seed uint64, c int) (*SendScenario, []c04Pos) {
 	return sc, ps
 }
 
-var c04Kinds = []refsmtpd.Action{{Code: 451, Text: "temporary failure"}, {Code: 550, Text: "permanent failure"}, {Kind: "drop"}}
+// the last kind is a positive reply that arrives after the client's timeout (15 s) has expired
+// but before a second one would: whatever the client does about the timeout, it must not read
+// that reply as the answer to something else
+var c04Kinds = []refsmtpd.Action{{Code: 451, Text: "temporary failure"}, {Code: 550, Text: "permanent failure"}, {Kind: "drop"}, {DelayMs: 20000}}
 
 func (p *c04) Gen(seed uint64, i int, tier string) (any, bool) {
 	nCfg, nRandom := 60, 60000
